@@ -58,6 +58,7 @@ def run(check, prog):
     superposition(check, prog)
     channels(check, prog)
     tables(check, prog)
+    channel_axis_first(check, prog)
     illumination_preparation(check, prog)
     default_theory_per_channel(check, prog)
     # per-channel scatterer properties given as labelled arrays pass through the
@@ -399,6 +400,74 @@ def tables(check, prog):
                   'the schema dimension whose coordinates equal its keys; no such '
                   'dimension -> ValueError', loc, fail_detail='returns under %s' % [
                       [(show(t)[:50], p) for t, p in o.cond] for o in res.returns])
+
+
+def channel_axis_first(check, prog):
+    """S3: a dictionary of per-channel values is bound to the illumination axis,
+    also when its keys coincide with the labels of a pixel axis (integer channel
+    labels 0, 1 on a two-row image with unit spacing): dict_to_array tries the
+    illumination coordinate before any other."""
+    from hpstatic.interp import Frame
+    q = MD + 'dict_to_array'
+    fd = prog.func(q)
+    loc = prog.loc(q, fd)
+    schema, inval = [sym(a.arg) for a in fd.args.args[:2]]
+    it = Interp(prog, max_depth=1)
+    res = it.analyze(q)
+    keys = intern(('call', ('attr', inval, 'keys'), (), ()))
+    ILL = ('const', 'illumination')
+    verdicts = []
+    for o in res.returns:
+        if o.value == inval:
+            continue
+        match = [t for t, p in o.cond if t[0] == 'cmp' and t[1] == '==' and p and
+                 any(x == keys for x in subterms(t))]
+        if not match:
+            continue
+        in_loop = any(t[0] == 'loop-iter' for t, p in o.cond)
+        if not in_loop:
+            # a match tried outside the loop: fine when it is the illumination axis
+            verdicts.append((any(x == ILL for x in subterms(match[0])),
+                             'matched outside the loop against %s' % show(match[0])[:80]))
+            continue
+        iters = {x[1] for x in subterms(match[0]) if x[0] == 'elem' and
+                 x[1] != ('attr', schema, 'coords')}
+        good, why = False, 'iterates over %s' % [show(i)[:80] for i in iters]
+        for itb in iters:
+            if itb[0] == 'call' and itb[1] == 'sorted' and dict(itb[3]).get('key') \
+                    and dict(itb[3])['key'][0] == 'closure' and \
+                    dict(itb[3]).get('reverse') in (None, ('const', False)):
+                node_c, cenv, cframe = it.closures[dict(itb[3])['key'][1]]
+                fr = Frame(cframe.module, cframe.owner, cframe.selfcls,
+                           cframe.selfname, 0, q + '.<key>')
+
+                def rank(c):
+                    v = it.inline_closure(node_c, cenv, cframe, [('const', c)], {},
+                                          fr, ())
+                    return v[1] if v[0] in ('const', 'num') else None
+                r0 = rank('illumination')
+                others = [rank(c) for c in ('x', 'y', 'z', 'flat', 'point', 'vector')]
+                good = r0 is not None and all(r is not None and r0 < r for r in others)
+                why = 'sorted with key ranks: illumination %r, others %r' % (r0, others)
+            elif itb[0] in ('list', 'tuple') and itb[1] and itb[1][0] == ILL:
+                good = True
+            elif itb[0] == 'bin' and itb[1] == '+' and itb[2][0] in ('list', 'tuple') \
+                    and itb[2][1] and itb[2][1][0] == ILL:
+                good = True
+        verdicts.append((good, why))
+    check.need('dict_to_array matches of keys against a coordinate', len(verdicts), 1,
+               'S3-dict-to-array', 'dict_to_array matches',
+               'a dict becomes an array along the dimension whose coordinates equal '
+               'its keys', loc)
+    early = any(g for g, w in verdicts if w.startswith('matched outside'))
+    ok = early or all(g for g, w in verdicts)
+    check.require(ok, 'S3-channel-axis-first', 'dict_to_array search order',
+                  'the illumination coordinate is tried before the pixel axes', loc,
+                  fail_detail='%s: the coordinates are tried in the schema\'s own '
+                  'order (z, x, y, illumination), so per-channel values keyed 0, 1 on '
+                  'a detector whose x labels are 0, 1 are bound to x -- noise_sd '
+                  'becomes per-row, illum_wavelen loses its illumination axis' % (
+                      '; '.join(w for g, w in verdicts if not g),))
 
 
 def illumination_preparation(check, prog):
